@@ -795,8 +795,7 @@ def rvalueTop (dest : Dest := .to result) (cg : CG := .main) : M Unit := fun st 
 
 /-- `self._call_routine()` -/
 def callRoutine : M Unit := fun st =>
-  if st.cur.isMark "[" then
-    (do skipToken; fun st' => callNamed (rvFuel st) true st') st
+  if st.cur.isMark "[" then callNamed (rvFuel st) true (advance st).1
   else callNamed (rvFuel st) false st
 
 /-! ## Statements that do not contain statements -/
@@ -827,13 +826,15 @@ def timePatternsMore : Nat → M Unit
         timePatternsMore f
     else pure ()
 
+def timePatternsLoop : M Unit := fun st => timePatternsMore (st.rest.length + 1) st
+
 def processTimePatterns : M Unit := do
   match (← getSt).currentTimePattern with
   | none => timeSpecError
   | some p =>
     emit (.timePattern true (.pat p))
     skipToken
-    timePatternsMore ((← getSt).rest.length + 1)
+    timePatternsLoop
 
 /-- `_time` -/
 def timeStmt : M Unit := do
@@ -974,13 +975,16 @@ def paramDeclMore (routine : String) : Nat → M Unit
       paramDeclMore routine f
     else pure ()
 
+def paramDeclLoop (routine : String) : M Unit := fun st =>
+  paramDeclMore routine (st.rest.length + 1) st
+
 /-- `_param_decl(routine)` -/
 def paramDecl (routine : String) : M Unit := do
   let name := (← getSt).cur.str
   addParam routine name
   addVariable name
   skipToken
-  paramDeclMore routine ((← getSt).rest.length + 1)
+  paramDeclLoop routine
 
 /-- `_return` -/
 def returnStmt : M Unit := do
@@ -1033,6 +1037,17 @@ def varOperand : M Unit := do
   emit (.move (.var name) (.reg .name))
   nextToken
 
+/-- the name part of `_operand`: a string constant, or a variable -/
+def operandName : M Unit := do
+  let constStr ← currentStr
+  if constStr.length > 0 then
+    emit (.moveq (.str constStr) (.reg .name))
+    skipToken
+  else if (← getSt).cur.ty == .name then varOperand
+  else if (← getSt).inMatrix then
+    triggerError "Use of \"set\" not allowed in this context. Try \"stage\"."
+  else tokenError "Needed a device, location, or group, got \"" "\"."
+
 /-- `_zone_range` / `_set_zones` -/
 def zoneRange : M Unit := do
   let st ← getSt
@@ -1062,9 +1077,11 @@ def inlineMore : Nat → Bool → Bool → M (Bool × Bool)
       inlineMore f hasRows true
     | _ => return (hasRows, hasCols)
 
+def inlineLoop : M (Bool × Bool) := fun st => inlineMore (st.rest.length + 1) false false st
+
 def inlineOperand : M Unit := do
   emit (.moveq (.operand .matrix) (.reg .operand))
-  let (hasRows, hasCols) ← inlineMore ((← getSt).rest.length + 1) false false
+  let (hasRows, hasCols) ← inlineLoop
   if !hasRows then
     emitList [.moveq .none (.reg .firstRow), .moveq .none (.reg .lastRow)]
   if !hasCols then
@@ -1113,33 +1130,43 @@ def pushLightNames (lt : LoopType) (o : Operand) : M Unit := do
     emitListTo .inner (iterMembers o countAndPush)
   else emitListTo .inner (iterLights countAndPush)
 
+/-- one item of `_pre_loop_list`, written into the (emptied) scratch `CodeGen` -/
+def preLoopItem (lt : LoopType) : M Unit := do
+  modifySt fun st => { st with inner := #[] }
+  let operand : Option Operand := match (← getSt).cur.ty with
+    | .all => some .light | .group => some .group | .location => some .location | _ => none
+  match operand with
+  | some o =>
+    skipToken
+    pushLightNames lt o
+  | none =>
+    rvalueTop (.to result) .inner
+    emitListTo .inner ([.push (.reg .result)] ++ opEquals .add (.loopVar .counter) (int 1))
+
+/-- `_pre_loop_and` -/
+def preLoopAnd : M Unit := do
+  skipToken
+  let st ← getSt
+  if st.cur.ty != .group && st.cur.ty != .location && !st.atRvalue then
+    tokenError "Needed lights after \"and\", got \"" "\"."
+
 /-- `_pre_loop_list`: each level writes its item into a fresh scratch `CodeGen`, lets the items
 after `and` append themselves to the main code first, then appends its own -/
 def preLoopList (lt : LoopType) : Nat → M Unit
   | 0 => outOfFuel
   | f + 1 => do
     let st ← getSt
-    if st.cur.ty == .as_ then return
-    modifySt fun st => { st with inner := #[] }
-    let operand : Option Operand := match st.cur.ty with
-      | .all => some .light | .group => some .group | .location => some .location | _ => none
-    match operand with
-    | some o =>
-      skipToken
-      pushLightNames lt o
-    | none =>
-      rvalueTop (.to result) .inner
-      emitListTo .inner ([.push (.reg .result)] ++ opEquals .add (.loopVar .counter) (int 1))
-    let mine ← takeInner
-    if (← getSt).cur.ty == .and_ then
-      -- (`operand == Operand.ALL` never holds: `all` maps to `Operand.LIGHT`)
-      -- `_pre_loop_and`
-      skipToken
-      let st ← getSt
-      if st.cur.ty != .group && st.cur.ty != .location && !st.atRvalue then
-        tokenError "Needed lights after \"and\", got \"" "\"."
-      preLoopList lt f
-    emitList mine
+    if st.cur.ty == .as_ then pure ()
+    else
+      preLoopItem lt
+      let mine ← takeInner
+      if (← getSt).cur.ty == .and_ then
+        -- (`operand == Operand.ALL` never holds: `all` maps to `Operand.LIGHT`)
+        preLoopAnd
+        preLoopList lt f
+      emitList mine
+
+def preLoopListTop (lt : LoopType) : M Unit := fun st => preLoopList lt (st.rest.length + 1) st
 
 /-- `_pre_loop_as` -/
 def preLoopAs : M String := do
@@ -1205,40 +1232,44 @@ def cycleVarRange (lt : LoopType) (indexVar : String) : M Unit := do
   emit (.pop (.loopVar .incr))
   ifEnd empty
 
-/-- `_pre_loop_with` -/
+/-- `_pre_loop_with`; the index variable is declared after its range has been parsed (before
+the list for `with i in …`) -/
 def preLoopWith (info : LoopInfo) : M LoopInfo := do
   -- `_init_index_var`
   let st ← getSt
   if st.cur.ty != .name then tokenError "Not a variable name: \"" "\""
   let indexVar := st.cur.str
-  addVariable indexVar
   nextToken
   let info := { info with indexVar := some indexVar }
   match (← getSt).cur.ty with
   | .in_ =>
+    addVariable indexVar
     emit (.moveq (.int 0) (.loopVar .counter))
     skipToken
-    preLoopList .list ((← getSt).rest.length + 1)
+    preLoopListTop .list
     return { info with ty := .list }
   | .from_ =>
     skipToken
     indexVarRange info.ty indexVar
+    addVariable indexVar
     return info
   | .cycle =>
     skipToken
     cycleVarRange info.ty indexVar
+    addVariable indexVar
     return info
   | _ => tokenError "Needed \"from\" or \"cycle\", got \"" "\""
 
 /-- `_pre_loop` -/
 def preLoop (lt : LoopType) : M LoopInfo := do
   let info : LoopInfo := { ty := lt }
-  if lt.isUnbounded then return info
+  if lt.isUnbounded then pure info
+  else
   if lt == .counted then rvalueTop (.to (.loopVar .counter))
   let info ←
     if lt == .all || lt == .list then do
       emit (.moveq (.int 0) (.loopVar .counter))
-      preLoopList lt ((← getSt).rest.length + 1)
+      preLoopListTop lt
       let v ← preLoopAs
       pure { info with lightVar := some v }
     else if lt == .groups || lt == .locations then do
@@ -1262,11 +1293,12 @@ def loopTest (lt : LoopType) : M Unit :=
 
 /-- `_loop_post` -/
 def loopPost (info : LoopInfo) : M Unit := do
-  if info.ty == .infinite || info.ty == .while_ then return
-  emitList (opEquals .sub (.loopVar .counter) (int 1))
-  match info.indexVar with
-  | some v => emitList (opEquals .add (.var v) (.loopVar .incr))
-  | none => pure ()
+  if info.ty == .infinite || info.ty == .while_ then pure ()
+  else
+    emitList (opEquals .sub (.loopVar .counter) (int 1))
+    match info.indexVar with
+    | some v => emitList (opEquals .add (.var v) (.loopVar .incr))
+    | none => pure ()
 
 /-! ## Statements that contain statements -/
 
@@ -1440,14 +1472,7 @@ mutual
         | .group => do skipToken; pure Operand.group
         | .location => do skipToken; pure Operand.location
         | _ => pure Operand.light
-      let constStr ← currentStr
-      if constStr.length > 0 then
-        emit (.moveq (.str constStr) (.reg .name))
-        skipToken
-      else if (← getSt).cur.ty == .name then varOperand
-      else if (← getSt).inMatrix then
-        triggerError "Use of \"set\" not allowed in this context. Try \"stage\"."
-      else tokenError "Needed a device, location, or group, got \"" "\"."
+      operandName
       let st ← getSt
       let kind ←
         if st.cur.ty == .zone then do
@@ -1529,8 +1554,10 @@ def outcomeOf : Res Unit → Outcome
   | .oof => .outOfFuel
 
 /-- `_script()` = `_body() and _eof()` on a token list, with statement fuel `fuel` -/
+def bodyLoop (fuel : Nat) : M Unit := fun st => body (st.rest.length + 1) fuel st
+
 def script (fuel : Nat) : M Unit := do
-  body ((← getSt).rest.length + 1) fuel
+  bodyLoop fuel
   if (← getSt).cur.ty != .eof then triggerError "Didn't get to end of file."
 
 def parseTokens (toks : List Tok) : Outcome :=
